@@ -79,6 +79,31 @@ where
 //@use aesctr_xor nobody
 } // mod aes_ctr
 
+// C09 for the key stream, as a proved consequence of the contract of `crypt_in_place`: processing a ++ b in two calls
+// (k advances by a.len() in between) gives the same bytes as processing it in one call.  By induction, any chunking.
+pub proof fn lemma_ctr_chunking(key: Seq<u8>, k: int, a: Seq<u8>, a2: Seq<u8>, b: Seq<u8>, b2: Seq<u8>)
+    requires ctr_xor(key, k, a, a2), ctr_xor(key, k + a.len(), b, b2)
+    ensures ctr_xor(key, k, a + b, a2 + b2)
+{
+    assert forall|i: int| 0 <= i < (a + b).len() implies #[trigger] (a2 + b2)[i] == (a + b)[i] ^ ks_byte(key, k + i) by {
+        if i >= a.len() {
+            assert((a2 + b2)[i] == b2[i - a.len()]);
+            assert(b2[i - a.len()] == b[i - a.len()] ^ ks_byte(key, k + a.len() + (i - a.len())));
+        } else {
+            assert((a2 + b2)[i] == a2[i]);
+        }
+    }
+}
+// the same for the whole decrypting reader: two successive successful reads compose into one step over the concatenated
+// ciphertext (MAC input, key stream and plaintext all line up), so the result does not depend on how the reads were split
+pub proof fn lemma_read_steps_compose(key: Seq<u8>, k: int, h0: Seq<u8>, ct1: Seq<u8>, p1: Seq<u8>, ct2: Seq<u8>, p2: Seq<u8>)
+    requires ctr_xor(key, k, ct1, p1), ctr_xor(key, k + ct1.len(), ct2, p2)
+    ensures ctr_xor(key, k, ct1 + ct2, p1 + p2), (h0 + ct1) + ct2 == h0 + (ct1 + ct2)
+{
+    lemma_ctr_chunking(key, k, ct1, p1, ct2, p2);
+    assert((h0 + ct1) + ct2 =~= h0 + (ct1 + ct2));
+}
+
 // ---------------------------------------------------------------------------------------------------- src/aes.rs
 //@item src/aes.rs | const PWD_VERIFY_LENGTH
 //@item src/aes.rs | const AUTH_CODE_LENGTH
@@ -101,6 +126,7 @@ pub open spec fn keyed_from(cipher_key: Seq<u8>, hmac_key: Seq<u8>, password: Se
     && cipher_key == aes_derived(password, salt, m).subrange(0, k)
     && hmac_key == aes_derived(password, salt, m).subrange(k, 2 * k)
 }
+pub open spec fn is_ciphertext_of_len(ct: Seq<u8>, n: int) -> bool { ct.len() == n }
 // one successful `read` that returned n > 0 bytes whose ciphertext was ct: MAC input and decryption
 pub open spec fn aes_read_step<R: Read>(o: &AesReaderValid<R>, f: &AesReaderValid<R>, fb: Seq<u8>, n: int, ct: Seq<u8>) -> bool {
     &&& ct.len() == n
